@@ -193,3 +193,21 @@ LEVEL_TEXT += _ADDR5D
 _ADDR5E = ' R02.7: the same comparison for `tuple[int, *tuple[date, ...]]` written with the builtin star syntax (a types.GenericAlias with __unpacked__, which reaches the registries un-normalised when it is a codec shape).'
 EXPLANATION += _ADDR5E
 LEVEL_TEXT += _ADDR5E
+
+
+_run_before_r6b = run
+
+
+def run(repo, rep, tier):  # noqa: F811 -- round-6 remedies (core/round6.py)
+    _run_before_r6b(repo, rep, tier)
+    if getattr(rep, "borrowed", False):
+        return
+    from ..core import round6 as _r6b
+    _r6b.short_names_not_identifiers(repo, rep, "R17.13")
+    _r6b.optional_member_selection(repo, rep, "R11.13")
+    _r6b.emitted_tuple_displays(repo, rep, "R16.7")
+
+
+_ADDR6C = '  Borrowed: R17.13, R11.13, R16.7.'
+EXPLANATION += _ADDR6C
+LEVEL_TEXT += _ADDR6C
